@@ -161,6 +161,7 @@ fn import_cases() -> Vec<Case> {
     add("two import statements for one file", format!("#import FK from \"./f.graphql\"\n#import FL from \"./f.graphql\"\nquery {{ k {{ ...FK ...FL }} }}\n--- ops/f.graphql\nfragment FK on K {{ id }}\nfragment FL on J {{ id }}\n"), true, "each fragment is defined once");
     add("wildcard import of a file that imports", format!("#import * from \"./fk.graphql\"\nquery {{ k {{ ...FK }} }}\n--- ops/fk.graphql\n{fk2}--- ops/fj.graphql\n{fj}"), true, "each fragment is defined once");
     add("mutually importing files", "#import A from \"./a.graphql\"\nquery { k { ...A } }\n--- ops/a.graphql\n#import B from \"./b.graphql\"\nfragment A on K { id ... on K { ...B } }\n--- ops/b.graphql\n#import A from \"./a.graphql\"\nfragment B on K { id }\n".to_string(), true, "the files import each other but the fragments do not form a cycle");
+    add("two fragments of one file requested through different routes", "#import A from \"./a.graphql\"\nquery { k { ...A } }\n--- ops/a.graphql\n#import B from \"./b.graphql\"\nfragment A on K { id ...B }\nfragment A2 on K { kk }\n--- ops/b.graphql\n#import A2 from \"./a.graphql\"\nfragment B on K { id ...A2 }\n".to_string(), true, "every fragment is defined once and every spread fragment is imported by the file that spreads it");
     add("imported fragment with the name of a local one", format!("#import FK from \"./fk.graphql\"\nquery {{ k {{ ...FK }} }}\nfragment FK on K {{ id }}\n--- ops/fk.graphql\n{fk}"), false, "two definitions named FK");
     add("imported fragment not applicable", format!("#import FK from \"./fk.graphql\"\nquery {{ l {{ ...FK }} }}\n--- ops/fk.graphql\n{fk}"), false, "K can never apply inside L");
     add("import of a fragment the file does not define", format!("#import Nope from \"./fk.graphql\"\nquery {{ k {{ ...Nope }} }}\n--- ops/fk.graphql\n{fk}"), false, "Nope is not defined");
